@@ -11,8 +11,9 @@
 (*   kmerspec    KmerSpec validation and JSON round trip                    *)
 (*   dmat        cluster.dump_dmat_csv -> load_dmat_csv     vs Csv          *)
 (*   paramgroup  cli.common.check_params_group (exclusive / required)      *)
+(*   progress    meter protocol of the long-running calls   vs Progress     *)
 (***************************************************************************)
-EXTENDS Taxonomy, Jaccard, Labels, Csv, Judge
+EXTENDS Taxonomy, Jaccard, Labels, Csv, ProgressDef, Judge
 
 \* ---- taxonomy operations
 Children(parent, t) == { c \in DOMAIN parent : parent[c] = t }
@@ -83,7 +84,11 @@ ClParamGroup(r) ==
   LET nf == Cardinality({ i \in DOMAIN r.present : r.present[i] }) IN
   << <<"error-iff-exclusive-violated-or-required-missing", r.error = ((r.exclusive /\ nf > 1) \/ (r.required /\ nf = 0))>> >>
 
-Clauses(r) == CASE r.op = "taxon" -> ClTaxon(r) [] r.op = "chunks" -> ClChunks(r) [] r.op = "generic" -> ClGeneric(r)
+ClProgress(r) ==
+  << <<"meter-protocol", Follows(r.total, r.events, r.returned)>>,
+     <<"total-is-the-amount-of-work", r.total = r.expected_total>> >>
+
+Clauses(r) == CASE r.op = "progress" -> ClProgress(r) [] r.op = "taxon" -> ClTaxon(r) [] r.op = "chunks" -> ClChunks(r) [] r.op = "generic" -> ClGeneric(r)
                 [] r.op = "dense" -> ClDense(r) [] r.op = "labels" -> ClLabels(r) [] r.op = "kmerspec" -> ClKmerSpec(r)
                 [] r.op = "dmat" -> ClDmat(r) [] r.op = "paramgroup" -> ClParamGroup(r)
 ASSUME PrintT(ToJson(Verdict(Recs, Clauses)))
